@@ -231,7 +231,9 @@ def run(tier, seed, replay=None):
             fresh = os.path.join(tdir, "release", "c14fresh")
         else:
             res.violation("a fresh #[derive(Parser)] of meta/src/grammar.pest does not compile", {"theorem_or_correspondence": "C14 fresh parser (build)", "log": fout[-3000:]}, no_failing_input=True)
-    legs = gen_pipe + (("| %s " % fresh) if fresh and gen_exe else "")   # column order: generated source first, #[derive] second
+    legs = gen_pipe + (("| %s " % fresh) if fresh else "")   # column order: generated source first, #[derive] second
+    if fresh and not gen_exe:
+        FRESH_NAMES["fresh"] = FRESH_NAMES["fresh-derive"]
     for i, sd in enumerate(seeds):
         cmds.append("%s diff %s %d %d %s %s| %s %d" % (hbin, REPO, count, sd, "" if i == 0 else "nofixed", legs, runner, maxmodel))
     mism, stats, which, diffs = run_pipes(cmds)
@@ -242,7 +244,9 @@ def run(tier, seed, replay=None):
     # code only (checked-in parser vs pest_vm vs the compiled fresh parser); the texts are described in `c14 target`. ----
     broken = (not regen_ok) or (not thm["ok"]) or any(m["kind"] in ("model", "read") for m in mism)
     search = None
-    if broken and not [m for m in mism if m["kind"] == "spec"]:
+    found = [m for m in mism if m["kind"] == "spec"]
+    # (also run when the only failing texts so far are long ones: the search yields short, rule-local ones)
+    if broken and (not found or min(len(m["case"]) for m in found) > 120):
         names = []
         for f in regen_fns:
             parts = f.split("::")
@@ -377,7 +381,7 @@ def run(tier, seed, replay=None):
         "regeneration": "identical" if regen_ok else "different",
         "legs": "every text: checked-in parser (pest_meta::parser::parse), pest_vm on parse_and_optimize(grammar.pest)" + (
                     ", the in-tree derive_parser output for grammar.pest compiled as source" if gen_exe else " (NO freshly generated parser: it could not be built)") + (
-                    ", a compiled #[derive(Parser)] of grammar.pest" if fresh and gen_exe else "") + "; texts of at most %d bytes also the extracted model" % maxmodel,
+                    ", a compiled #[derive(Parser)] of grammar.pest" if fresh else "") + "; texts of at most %d bytes also the extracted model" % maxmodel,
         "fresh_parser_comparisons": stats.get("fresh_compared", 0),
         "fresh_parser_call_limit_hits": stats.get("fresh_limited", 0),
         "targeted_search": search if search else "not run (no structural / proof / correspondence break, or a failing text was already found)",
@@ -388,12 +392,15 @@ def run(tier, seed, replay=None):
     return res.finish()
 
 
+FRESH_NAMES = {"vm": "pest_vm on parse_and_optimize(grammar.pest)",
+               "fresh": "a parser freshly generated from grammar.pest by the in-tree generator (derive_parser output compiled as source)",
+               "fresh-derive": "a freshly compiled #[derive(Parser)] of grammar.pest"}
+
+
 def against_name(case):
     m = re.search(r"against=(\S+)", case)
     a = m.group(1) if m else "vm"
-    return {"vm": "pest_vm on parse_and_optimize(grammar.pest)",
-            "fresh": "a parser freshly generated from grammar.pest by the in-tree generator (derive_parser output compiled as source)",
-            "fresh-derive": "a freshly compiled #[derive(Parser)] of grammar.pest"}.get(a, a)
+    return FRESH_NAMES.get(a, a)
 
 
 def field_what(case):
